@@ -485,6 +485,7 @@ func smbC04Case(c *h.Ctx, mk func() command_interface.CommandInterface, k *smbCa
 	}
 	b1, merr, p := smbMarshal(x)
 	c.Exec(1)
+	c.Retain(site, b1, k.sample())
 	if p != "" {
 		c.Fail(site, "marshal-error@"+k.patClass(), "panic: "+p, k.sample())
 		return nil
